@@ -1,24 +1,29 @@
 #!/bin/bash
 # Runs every confirmed seeded change under /verif/seeded/<prop>-<k>/ through the check of its property
-# (on a scratch copy of /repo; /repo itself is never modified) and writes /verif/seeded/MATRIX.md
-# plus a "check_result" entry into each meta.json.
+# (on a scratch copy of /repo; /repo itself is never modified), ${SEEDJOBS:-6} at a time, and writes
+# /verif/seeded/MATRIX.md plus a "check_result" entry into each meta.json.
 cd /verif
 out=seeded/MATRIX.md
-echo "| seed | property | what was changed | check result | first rule reporting it |" > $out
-echo "|---|---|---|---|---|" >> $out
-for d in seeded/*/; do
-  n=$(basename $d); prop=${n%%-*}
-  [ -f $d/patch.diff ] || continue
+tmp=$(mktemp -d /tmp/seedmx.XXXXXX)
+one() {
+  d=$1; n=$(basename $d); prop=${n%%-*}
+  [ -f $d/patch.diff ] || exit 0
   res=$(MUTLINES=3 tools/mutrun.sh $PWD/$d/patch.diff $prop 2>&1)
   rc=$(echo "$res" | grep -o 'exit=[0-9]*' | head -1 | cut -d= -f2)
   rule=$(echo "$res" | grep -o 'rule=[^ ]*' | head -1 | cut -d= -f2)
-  case "$rc" in 1) st="VIOLATION reported";; 2) st="UNDECIDED (non-zero exit, no VIOLATION line)";; 0) st="missed (exit 0)";; *) st="not applicable ($res)";; esac
+  case "$rc" in 1) st="VIOLATION reported";; 2) st="UNDECIDED (non-zero exit, no VIOLATION line)";; 0) st="missed (exit 0)";; *) st="not applicable ($(echo $res | cut -c1-80))";; esac
   sum=$(python3 -c "import json;print(json.load(open('$d/meta.json'))['summary'].replace('|','/')[:160])")
-  echo "| $n | $prop | $sum | $st | ${rule:--} |" >> $out
+  echo "| $n | $prop | $sum | $st | ${rule:--} |" > $2/$n.row
   python3 - "$d/meta.json" "$st" "${rule:-}" <<'PY'
 import json,sys
 p=sys.argv[1]; m=json.load(open(p)); m['check_result']={'status':sys.argv[2],'first_rule':sys.argv[3],'how':'tools/seed_matrix.sh: patch applied to a scratch copy of /repo, ./bin/kitcheck -prop <property> -repo <copy>'}
 json.dump(m,open(p,'w'),indent=1)
 PY
-done
-cat $out | cut -c1-200
+}
+export -f one
+ls -d seeded/*/ | sed 's#/$##' | xargs -P ${SEEDJOBS:-6} -I{} bash -c "one {} $tmp"
+echo "| seed | property | what was changed | check result | first rule reporting it |" > $out
+echo "|---|---|---|---|---|" >> $out
+cat $(ls $tmp/*.row | sort -V) >> $out
+rm -rf $tmp
+echo "reported: $(grep -c 'VIOLATION reported' $out)  undecided: $(grep -c 'UNDECIDED' $out)  missed: $(grep -c 'missed (exit 0)' $out)  n/a: $(grep -c 'not applicable' $out)"
